@@ -190,6 +190,9 @@ def check(ctx):
     chain = list(range(100, 114)); deep.append((chain, [(chain[i], chain[i + 1]) for i in range(len(chain) - 1)], ["deep-chain"]))
     spine = list(range(200, 212)); teeth = list(range(300, 312))
     deep.append((spine + teeth, [(spine[i], spine[i + 1]) for i in range(len(spine) - 1)] + [(spine[i], teeth[i]) for i in range(len(spine))], ["deep-comb"]))
+    # a chain with a short cut over two nodes (a level that reaches only nodes reached before, while longer walks go on), and its mirror
+    sc = list(range(400, 406)); deep.append((sc, [(sc[i], sc[i + 1]) for i in range(5)] + [(sc[0], sc[3])], ["short-cut"]))
+    deep.append((sc, [(sc[i], sc[i + 1]) for i in range(5)] + [(sc[1], sc[4]), (sc[0], sc[2])], ["short-cut"]))
     for ids, E, feats in deep:
         E = list(E); rng.shuffle(E)
         for keep in (True, False):
